@@ -178,6 +178,9 @@ def build(item: dict[str, Any], box: dict[str, Any]) -> Any:
         st: dict[str, Any] = {"wire": [], "outcomes": [s[2] for s in steps if s[0] == "req"]}
         st["outcomes"] = [(o[0], bytes.fromhex(o[1])) if o[0] == "reply" else tuple(o) for o in st["outcomes"]]
         box.update(st=st, path=path, completed=0, results=[], worker=worker)
+        if item.get("db_fault") is not None:
+            # a transient 'database is locked' (e.g. another process reading the file) for the k-th scan_result INSERT
+            worker.fail_matching.append(("execute:INSERT:scan_result", item["db_fault"], dbshim.OperationalError("database is locked")))
         loop = run.loop
         dbh = G["DBHandler"](path)
         ecu = G["ECU"](G["ScriptTransport"](st), timeout=1.0, max_retry=item.get("max_retry", 0))
@@ -259,7 +262,7 @@ def judge(item: dict[str, Any], box: dict[str, Any], choices: list[int], res: Re
         return t if len(t) <= 400 else t[:200] + f"...({len(t)} chars)..." + t[-60:]
 
     def v(sig: str, m: str) -> None:
-        res.violate(f"C11|{sig}", short(m) + f" [steps={short(steps)} cancel={item.get('cancel', False)}]", rp)
+        res.violate(f"C11|{sig}", short(m) + f" [steps={short(steps)} cancel={item.get('cancel', False)} db_fault={item.get('db_fault')}]", rp)
 
     if box["status"] != "done":
         v(f"shutdown-hangs|{box['status']}", f"run/shutdown did not finish ({box['status']}); pending db ops: {[p[0] for p in box['worker'].pending]}")
@@ -353,7 +356,7 @@ def judge(item: dict[str, Any], box: dict[str, Any], choices: list[int], res: Re
         if mode != e["mode"]:
             v(f"row|log-mode|want={e['mode']}", f"row {i}: log_mode {mode}")
             return
-    bad = [w for w in box["warnings"] if "Could not log" in w]
+    bad = [w for w in box["warnings"] if "Could not log messages to database" in w]
     if bad:
         v("warning|could-not-log", f"warning: {bad[0][:200]}")
     rm = box.get("run_meta")
@@ -449,9 +452,118 @@ def run_lifecycle(item: dict[str, Any], res: Result) -> None:
         res.violate(f"C11|lifecycle|{kind}|phase={phase}", f"scan_result holds {rows}, expected {want} (wire {wire}) [{item}]", rp)
 
 
+def run_concurrent(item: dict[str, Any], bound: int, cap: int | None, res: Result) -> None:
+    """Several tasks use the ECU object at the same time (as the tester-present worker and scanner code do): exchanges are
+    serialised by the client, and every row must carry the client's state right before ITS transmission."""
+
+    names = item["tasks"]
+    box: dict[str, Any] = {}
+
+    def scenario(run: Run) -> None:
+        box.clear()
+        WARN.msgs = []
+        seams.patch_gallia(db=True)
+        worker = dbshim.DbWorker()
+        run.add_actor(worker)
+        path = TMP / f"db-{os.getpid()}.sqlite"
+        for suffix in ("", "-wal", "-shm"):
+            try:
+                os.unlink(str(path) + suffix)
+            except FileNotFoundError:
+                pass
+        st: dict[str, Any] = {"wire": [], "outcomes": []}
+        replies = {bytes.fromhex(ALPHA[n][0]): ALPHA[n][1] for n in names}
+
+        class ByRequest(list):  # outcome looked up by the request that was written, not by position
+            def __getitem__(self, i: Any) -> Any:
+                o = replies[st["wire"][i][1]]
+                return (o[0], bytes.fromhex(o[1])) if o[0] == "reply" else tuple(o)
+
+            def __len__(self) -> int:
+                return 10**6
+
+        st["outcomes"] = ByRequest()
+        box.update(st=st, path=path, results={}, worker=worker)
+        loop = run.loop
+        dbh = G["DBHandler"](path)
+        ecu = G["ECU"](G["ScriptTransport"](st), timeout=1.0, max_retry=0)
+
+        async def one(name: str) -> None:
+            req = G["service"].UDSRequest.parse_dynamic(bytes.fromhex(ALPHA[name][0]))
+            try:
+                r = await ecu.request(req)
+                box["results"][name] = ("ok", r.pdu)
+            except (G["UDSException"], ConnectionError, TimeoutError) as e:
+                box["results"][name] = ("exc", type(e).__name__)
+
+        async def main() -> None:
+            await dbh.connect()
+            await dbh.insert_run_meta("vf.c11", G["Cfg"](), datetime.fromtimestamp(BASE_T, UTC), None)
+            await dbh.insert_scan_run("script://ecu")
+            ecu.db_handler = dbh
+            tasks = [loop.create_task(one(n), name=n) for n in names]
+            try:
+                await asyncio.gather(*tasks)
+            finally:
+                await dbh.complete_run_meta(datetime.fromtimestamp(BASE_T + loop.time(), UTC), 0, None)
+                await dbh.disconnect()
+
+        task = loop.create_task(main(), name="main")
+        run.done = task.done
+
+        def fin() -> None:
+            box["status"] = run.status
+            rows = []
+            if path.exists():
+                con = sqlite3.connect(path)
+                try:
+                    rows = con.execute("select request_pdu, response_pdu, state from scan_result order by id").fetchall()
+                finally:
+                    con.close()
+            box["rows"] = rows
+
+        run.finish = fin  # type: ignore[attr-defined]
+
+    for run in explore(scenario, bound, POLICY, max_execs=cap):
+        res.count("executions")
+        res.count("concurrent_runs")
+        res.count("transitions", run.n_actions)
+        rp = {"item": item, "choices": run.choices()}
+        if box["status"] != "done":
+            res.violate("C11|concurrent|hang", f"concurrent run did not finish ({box['status']}) [{names}]", rp)
+            continue
+        wire = [w for _t, w in box["st"]["wire"]]
+        by_req = {bytes.fromhex(ALPHA[n][0]): n for n in names}
+        state = {"session": 1, "security_access_level": None}
+        want = []
+        for w in wire:
+            n = by_req[w]
+            out = ALPHA[n][1]
+            reply = bytes.fromhex(out[1]) if out[0] == "reply" else None
+            want.append((w.hex(), reply.hex() if reply else None, dict(state)))
+            resu = box["results"].get(n)
+            if reply is not None:
+                ref_state_update(state, w, reply, resu is not None and resu[0] == "ok")
+        got = [(r[0], r[1], json.loads(r[2])) for r in box["rows"]]
+        res.count("rows_checked", len(got))
+        res.seen("states", ("concurrent", tuple(names), tuple(map(str, got))))
+        if [g[:2] for g in got] != [w[:2] for w in want]:
+            res.violate("C11|concurrent|rows-order-or-bytes", f"rows {[g[:2] for g in got]} != transmissions {[w[:2] for w in want]} [{names}]", rp)
+        elif got != want:
+            i = next(k for k in range(len(got)) if got[k] != want[k])
+            res.violate(
+                "C11|concurrent|state-not-the-one-before-transmission",
+                f"row {i} ({got[i][0]}): state {got[i][2]}, the client's state right before this transmission was {want[i][2]} (tasks started in order {names})",
+                rp,
+            )
+
+
 def run_item(work: tuple[Any, ...]) -> Result:
     item, bound, cap = work
     res = Result()
+    if item.get("tasks"):
+        run_concurrent(item, bound, cap, res)
+        return res
     if item.get("lifecycle"):
         run_lifecycle(item, res)
         return res
@@ -571,6 +683,17 @@ def items(tier: str, seed: int) -> list[Any]:
             out.append(({"steps": steps}, 1 if n <= 2 else 0, cap))
             if n <= 2 or (not quick and n == 3):
                 out.append(({"steps": steps, "cancel": True}, bound, cap))
+    # a transient OperationalError ('database is locked') while the k-th row is written
+    for seq in (("read", "dsc2", "read"), ("dsc2", "key", "read"), ("read", "nrc", "timeout", "read")):
+        steps = [("req", ALPHA[a][0], ALPHA[a][1], False) for a in seq]
+        for k in range(len(seq)):
+            out.append(({"steps": steps, "db_fault": k}, bound, cap))
+            out.append(({"steps": steps, "db_fault": k, "cancel": True}, 1, cap))
+    # concurrent users of the ECU object (distinct requests so that rows can be attributed)
+    conc = ["dsc2", "key", "reset", "read", "f186=2", "nrc"]
+    for trio in itertools.permutations(conc, 3):
+        if len({ALPHA[n][0] for n in trio}) == 3:
+            out.append(({"tasks": list(trio), "steps": []}, 1, cap))
     # full scanner lifecycle with the flag set before setup()
     for initial, props, ping in itertools.product((True, False), repeat=3):
         for main in (
@@ -593,6 +716,10 @@ def items(tier: str, seed: int) -> list[Any]:
 
 def replay(doc: dict[str, Any]) -> Result:
     item = doc["item"]
+    if item.get("tasks"):
+        res = Result()
+        run_concurrent(item, 0, None, res)
+        return res
     if item.get("lifecycle"):
         item["main"] = [tuple(x) for x in item["main"]]
         res = Result()
